@@ -3,7 +3,7 @@
    (splitEqual(n): upper coordinate = first coordinate of the chunk) and every follower's current fiber of rank r is cut
    at those boundaries (splitNonUniform(boundaries): partition b holds b <= c < next boundary, elements below the first
    boundary and empty partitions are dropped); then r1 (upper) and r0 (lower) are iterated.  Definitions only. *)
-From Coq Require Import ZArith List Bool Lia String.
+From Coq Require Import ZArith List Bool Lia String Sorted.
 Require Import TV.Model.Nest TV.Model.NestPart.
 Import ListNotations.
 Open Scope Z_scope.
@@ -152,3 +152,19 @@ Fixpoint occ_dyn_okb (Lo : list rank) (r r1 r0 : rank) (k : nat) (Li : list rank
 (* the state one product term reaches along Lo at the coordinates of p *)
 Fixpoint reach_term (Lo : list rank) (p : point) (tm : term) : term :=
   match Lo with [] => tm | r :: Lo' => reach_term Lo' p (step_term r (p r) tm) end.
+
+(* ---------- the hypotheses of the theorems (Proofs/NestOccProofs.v) ---------- *)
+(* every tensor of the term has distinct ranks and holds r, if at all, as its NEXT rank *)
+Definition term_ok (r : rank) (tm : term) : Prop :=
+  forall t, In t tm -> NoDup (rem t) /\ (holds r t = true -> participates r t = true).
+
+(* the leader: the tensor at position k of the term, next rank r, current fiber sorted *)
+Definition leader_ok (r : rank) (k : nat) (tm : term) : Prop :=
+  exists ld, nth_error tm k = Some ld /\ participates r ld = true /\ StronglySorted Z.lt (keys (children (cur ld))).
+
+(* what must hold of every state at which the split is applied *)
+Definition occ_state_ok (r r1 r0 : rank) (n k : nat) (Li : list rank) (s : list term) : Prop :=
+  (forall tm, In tm s -> term_ok r tm /\ leader_ok r k tm) /\ wf Li (map (occ_split r r1 r0 n k) s).
+
+(* first coordinate of a chunk *)
+Definition head_key (ch : list (coord * trie)) : Z := match ch with ct :: _ => fst ct | [] => 0 end.
